@@ -1127,8 +1127,9 @@ def str_class(s):
         return "number-like"
     if re.fullmatch(r"\d{1,4}-\d{1,3}(-\d{1,2})?", s):
         return "date-like"
-    if re.fullmatch(r"(\d{1,4}-\d{1,3}(-\d{1,2})?T)?\d{1,2}:\d{1,2}(:\d{1,2}(\.\d+)?)?Z?([+-]\d{1,2}(:?\d{1,2})?)?", s):
-        return "time-with-offset-like" if re.search(r"[+-]\d{1,2}(:?\d{1,2})?$", s.split("T")[-1]) else "time-like"
+    if re.fullmatch(r"(\d{1,4}-\d{1,3}(-\d{1,2})?[Tt])?\d{1,2}:\d{1,2}(:\d{1,2}(\.\d+)?)?[Zz]?([+-]\d{1,2}(:?\d{1,2})?)?", s):
+        # strptime matches the literal T and Z of the formats case-insensitively
+        return "time-with-offset-like" if re.search(r"[+-]\d{1,2}(:?\d{1,2})?$", re.split("[Tt]", s)[-1]) else "time-like"
     for c in s:
         if c in _RCHAR:
             return _RCHAR[c]
